@@ -97,7 +97,8 @@ def lookthrough_family(ctx):
     A, B, C, D, E = bases
     fixed = [([(11, (D, A))], True, False), ([(11, (D, D))], True, False), ([(11, (A, A))], True, False), ([(11, (B, C))], True, True),
              ([(11, (A, A))], False, True), ([(10, (D,))], True, True), ([(11, (E, A))], True, True), ([(11, (D, E)), (12, (B,))], True, True),
-             ([(10, (B,)), D], False, True), ([(11, (D, D))], True, True)]
+             ([(10, (B,)), D], False, True), ([(11, (D, D))], True, True),
+             ([B, (12, (B,))], True, False), ([C, E, (12, (C,))], True, True)]
     for k in range(16 if ctx.tier == "quick" else 80):
         if k < len(fixed):
             listed, top, bottom = fixed[k]
@@ -147,6 +148,7 @@ def one_language(ctx, li, spec, ops, listed, top, bottom, tr_limit=25):
     # successors of every canonical type: implementation vs model, and collect direct links
     py = {t: G.ty_py(t, ops) for t in canon}
     sub, sup, trans = {}, {}, {}
+    lsucc_lines = []
     for t in canon:
         for up in (False, True):
             for tr in (False, True):
@@ -158,7 +160,8 @@ def one_language(ctx, li, spec, ops, listed, top, bottom, tr_limit=25):
                 except RecursionError:
                     obs = "E:RecursionError"
                     res = []
-                ctx.case(f"(lsucc {'T' if up else 'F'} {'T' if tr else 'F'} {G.ty_sexp(t)})", obs, dict(case, type=t, up=up, transitive=tr),
+                lsucc_lines.append(f"(lsucc {'T' if up else 'F'} {'T' if tr else 'F'} {G.ty_sexp(t)})")
+                ctx.case(lsucc_lines[-1], obs, dict(case, type=t, up=up, transitive=tr),
                     nontrivial=nontrivial, key=(li, line, t, up, tr))
                 if not tr:
                     (sup if up else sub)[t] = set(res)
@@ -199,7 +202,7 @@ def one_language(ctx, li, spec, ops, listed, top, bottom, tr_limit=25):
                 reported.add(cls)
                 ctx.fail(f"canon (top={top}, bottom={bottom}) of {show(listed)}: {G.ty_str(s, spec)} is {'reachable' if s in seen else 'not reachable'} from "
                          f"{G.ty_str(t, spec)} through direct-subtype links but is {'a' if strict else 'not a'} strict subtype",
-                    {"check": "reachability", "endpoint_is_or_contains_top_or_bottom": cls[0], "spurious": cls[1]}, replay)
+                    {"check": "reachability", "endpoint_is_or_contains_top_or_bottom": cls[0], "spurious": cls[1]}, replay, lines=lsucc_lines)
     for t in canon:
         reported = set()
         for s in sub[t]:
@@ -208,14 +211,14 @@ def one_language(ctx, li, spec, ops, listed, top, bottom, tr_limit=25):
                 if cls not in reported:
                     reported.add(cls)
                     ctx.fail(f"{G.ty_str(s, spec)} is reported a direct subtype of {G.ty_str(t, spec)} but not vice versa",
-                        {"check": "mirror", "endpoint_is_or_contains_top_or_bottom": cls}, replay)
+                        {"check": "mirror", "endpoint_is_or_contains_top_or_bottom": cls}, replay, lines=lsucc_lines)
         for s in sup[t]:
             if s in cset and t not in sub.get(s, ()):
                 cls = has_tb(s) or has_tb(t)
                 if ("up", cls) not in reported:
                     reported.add(("up", cls))
                     ctx.fail(f"{G.ty_str(s, spec)} is reported a direct supertype of {G.ty_str(t, spec)} but not vice versa",
-                        {"check": "mirror", "endpoint_is_or_contains_top_or_bottom": cls}, replay)
+                        {"check": "mirror", "endpoint_is_or_contains_top_or_bottom": cls}, replay, lines=lsucc_lines)
         for s in list(sub[t]) + list(sup[t]):
             if s not in cset:
                 ctx.fail(f"{G.ty_str(s, spec)} is reported as a direct link of {G.ty_str(t, spec)} but is not canonical", {"check": "link-not-canonical"}, replay)
